@@ -35,6 +35,18 @@ package mvs
 //@ func (*mvs.Resolver).listVersions
 //@   trusted
 //@   modifies heap, smap
+// The memo of tagged versions is transparent too (C10/C11): a version series is looked up and
+// registered under its own key (module.Version.String of the version asked about, which names the
+// full path including the major-version suffix), the repository asked for is that project's, and
+// only tags whose path is exactly the project's are listed - so `lib` and `lib@v2` never see each
+// other's lists, whichever is asked about first.
+//@ func (*mvs.Resolver).listVersions variant keyed
+//@   requires r != nil
+//@   callsite Load: assert looks-up-its-own-key: $1 == ifaceas("string", verstr(p.Path, p.Version))
+//@   callsite LoadOrStore: assert registers-under-its-own-key: $1 == ifaceas("string", verstr(p.Path, p.Version))
+//@   callsite findProjectRepository: assert asks-for-this-project: $2 == p.Path
+//@   loop over taggedVersions: invariant only-this-project-s-tags: forall j: int :: 0 <= j && j < len(versions) ==> versions[j].Path == p.Path
+//@   modifies heap, smap
 
 // ---------------------------------------------------------------- C10: the repository memo is transparent
 // findProjectRepository memoises per project path. The answer for a project must not depend on which
@@ -193,18 +205,14 @@ package mvs
 
 // `@latest` and range queries: the walk over the tags stops (and an answer is chosen) only at a tag of
 // the queried project whose major version matches the path's; a tag that does not qualify is never
-// the answer. (majormatch names the result of majorVersionMatch.)
-//@ specfn majormatch(string, string) bool
-//@ smt <<<
-//@ (declare-fun majormatch (Str Str) Bool)
-//@ >>>
+// the answer. majorVersionMatch itself is verified against its definition: the tag's major version
+// (semver.Major, a dependency) equals the path's, or the path has none and the tag is v0 or v1.
 //@ func mvs.majorVersionMatch
-//@   trusted
-//@   ensures result == majormatch(major, ver)
+//@   ensures definition: result == (major == semmajor(ver) || (major == "" && (semmajor(ver) == "v0" || semmajor(ver) == "v1")))
 //@ func (*mvs.querier).resolveLatestQuery$1
-//@   ensures stops-only-at-a-qualifying-tag: !result ==> (majormatch(old(majorVersion), old(v.Version.Version)) && old(v.Version.Path) == old(query.path))
-//@   ensures remembers-only-qualifying-prereleases: (prerelease != old(prerelease)) ==> (prerelease == v && majormatch(old(majorVersion), old(v.Version.Version)) && old(v.Version.Path) == old(query.path))
+//@   ensures stops-only-at-a-qualifying-tag: !result ==> ((old(majorVersion) == semmajor(old(v.Version.Version)) || (old(majorVersion) == "" && (semmajor(old(v.Version.Version)) == "v0" || semmajor(old(v.Version.Version)) == "v1"))) && old(v.Version.Path) == old(query.path))
+//@   ensures remembers-only-qualifying-prereleases: (prerelease != old(prerelease)) ==> (prerelease == v && (old(majorVersion) == semmajor(old(v.Version.Version)) || (old(majorVersion) == "" && (semmajor(old(v.Version.Version)) == "v0" || semmajor(old(v.Version.Version)) == "v1"))) && old(v.Version.Path) == old(query.path))
 //@   modifies heap
 //@ func (*mvs.querier).resolveSemverRangeQuery$1
-//@   ensures stops-only-at-a-qualifying-tag: !result ==> (majormatch(old(majorVersion), old(v.Version.Version)) && old(v.Version.Path) == old(query.path))
+//@   ensures stops-only-at-a-qualifying-tag: !result ==> ((old(majorVersion) == semmajor(old(v.Version.Version)) || (old(majorVersion) == "" && (semmajor(old(v.Version.Version)) == "v0" || semmajor(old(v.Version.Version)) == "v1"))) && old(v.Version.Path) == old(query.path))
 //@   modifies heap
